@@ -87,7 +87,9 @@ func (nfs *Nfs) makeRootDir() {
 	if ip == nil {
 		panic("makeRootDir")
 	}
-	dir.MkRootDir(ip, op)
+	if !dir.MkRootDir(ip, op) {
+		panic("makeRootDir: no space for the root directory")
+	}
 	ok := op.Commit()
 	if !ok {
 		panic("makeRootDir")
